@@ -1,22 +1,22 @@
 CONSTANTS
-  Node = {a, b, c}
-  InitVoters = {a, b, c}
-  Value = {x, y, z, u}
+  Node = {a, b, c, d}
+  InitVoters = {a, b}
+  Value = {x, y}
   Nil = Nil
   MaxTerm = 3
-  MaxLog = 8
+  MaxLog = 9
   MaxTimer = 7
-  MaxAE = 14
-  MaxClient = 4
+  MaxAE = 16
+  MaxClient = 2
   MaxCrash = 1
   MaxHalf = 1
-  MaxCfg = 0
+  MaxCfg = 4
   MaxRead = 0
-  MaxSnap = 3
+  MaxSnap = 0
   SnapSize = 1
   AsyncKinds = {}
   MaxNet = 0
-  W = {}
+  W = {"Env:S5Free"}
   Gen = TRUE
   OutDir = "OUTDIR"
 SPECIFICATION GSpec
